@@ -77,6 +77,13 @@ def run_harness(binary, args, out=None, timeout=3600, env=None):
     return p.stdout
 
 
+def run_harness_rc(binary, args, out=None, timeout=3600, env=None):
+    """Like run_harness but returns (returncode, output): a crash (signal) of the code under test is data, not a tool error."""
+    cmd = [binary] + args + (["--out", out] if out else [])
+    p = sh(cmd, timeout=timeout, env=env, check=False)
+    return p.returncode, p.stdout
+
+
 # ------------------------------------------------------------------ TLC
 def _tlc_env(extra_env=None, xmx="6g", deque=False):
     opts = "-Xss1g -Xmx%s" % xmx
